@@ -69,6 +69,9 @@ def check_case(case, ctr):
         if cb is None:
             dot = lat.graphviz()
             fo = fp = ' '.join
+        elif cbname == 'tag/comma':
+            # documented parameter order: filename, directory, render, view, then the callbacks
+            dot = lat.graphviz(None, None, False, False, cb, cbp)
         else:
             dot = lat.graphviz(make_object_label=cb, make_property_label=cbp)
         ctr['calls'] += 1
